@@ -300,6 +300,11 @@ class Ctx:
         self.assumptions = []
         self.rule = ""
         self.extra = {}
+        self._known = None
+        self._per_sig = {}
+        self.disagreements = []
+        self.broken = []
+        self.driver_ok = True
 
     # ---- counting
     def count(self, suite, case_key, nontrivial=True, bucket=None):
@@ -328,7 +333,24 @@ class Ctx:
         self.violations.append((path, found_input, text))
 
     def known(self, text):
-        self.known_lines.append(text)
+        if text not in self.known_lines:
+            self.known_lines.append(text)
+
+    def report(self, text, obj, sig):
+        """A property failure observed on the implementation. Listed known findings (matched by their
+        specific signature) are reported as KNOWN-FINDING; anything else is a violation."""
+        if self._known is None:
+            self._known = load_known_findings(self.prop)
+        for f in self._known:
+            if re.fullmatch(f["match"], sig):
+                self.known(f"{f['id']}: {f['what_fails']}")
+                return
+        n = self._per_sig.get(sig, 0)
+        self._per_sig[sig] = n + 1
+        if n < 3:
+            obj = dict(obj)
+            obj["signature"] = sig
+            self.violation(text, obj)
 
     def finish(self):
         wall = time.time() - self.t0
